@@ -9,10 +9,15 @@ def pairs(maxlen):
 def c06(tier):
     n = 4 if tier == "quick" else 6
     jobs = [Job("h_c06::merge_pair", p, {"hash_order": "fixed"}, budget_s=1500, validate=(40 if tier == "quick" else 60)) for p in pairs(n)]
+    s2 = [(10, 0), (6, 1)] if tier == "quick" else [(10, 0), (6, 1), (10, 1)]
+    for c in s2:
+        jobs.append(Job("h_c12::merged_arrays", c, dict(S2), budget_s=3000, validate=30))
     return dict(
         jobs=jobs,
-        bounds={"len_m": "0..%d" % n, "len_n": "0..%d" % n, "elements": "abstract atoms (JSON integers), duplicate-free per sequence, all cross-sequence equality patterns"},
-        assumptions=["elements are JSON numbers (merge_arrays only uses Value equality/clone)"],
+        bounds={"len_m": "0..%d" % n, "len_n": "0..%d" % n, "elements": "abstract atoms (JSON integers), duplicate-free per sequence, all cross-sequence equality patterns",
+                "melda level [versions per replica, symbolic ids of inserted elements]": [list(c) for c in s2],
+                "melda-level scenario": "base items=[a,b] more=[c]; each replica submits one of k versions (insert at same position, reorder, move between arrays, remove, create); exchange both ways"},
+        assumptions=["elements are JSON numbers (merge_arrays only uses Value equality/clone)"] + S2_ASSUME,
         note="utils::merge_arrays executed from MIR; oracle = harness h_c06::merge_pair",
     )
 
@@ -132,6 +137,26 @@ def c04(tier):
                 note="utils::flatten/unflatten + melda.rs update / update_object / delete_object / create_object / read / commit from MIR")
 
 
+def c02(tier):
+    combos = [(0, 6, 0), (1, 2, 0)] if tier == "quick" else [(0, 6, 0), (0, 12, 0), (1, 2, 0), (1, 3, 1)]
+    jobs = [Job("h_c02::delivery", c, dict(S2), budget_s=4000, validate=30) for c in combos]
+    return dict(jobs=jobs, bounds={"history 0": "c1 <- c2 (2 blocks + 2 packs): all 24 delivery orders of the 4 files, second document among k orders with a symbolic value",
+                                   "history 1": "c1 <- cA, c1 <- cB, {cA,cB} <- cM with c1 pre-delivered: all 720 delivery orders of the remaining 6 files",
+                                   "after every delivered file": "refresh; state == recorded state of exactly the causally complete blocks; state == Melda::new on the same storage",
+                                   "combos [history, k, symbolic value]": [list(c) for c in combos]},
+                assumptions=S2_ASSUME + ["the oracle maps each causally closed set of blocks to the state the source replicas showed when exactly those blocks were applied"],
+                note="melda.rs refresh / reload / check_delta / mark_valid_deltas / apply_delta / load_raw_delta, datastorage.rs refresh / reload from MIR")
+
+
+def c12(tier):
+    combos = [(10, 0), (2, 1)] if tier == "quick" else [(10, 0), (2, 1), (5, 1)]
+    jobs = [Job("h_c12::maintenance", c, dict(S2), budget_s=3000, validate=30) for c in combos]
+    return dict(jobs=jobs, bounds={"state": "two replicas after concurrent array edits (k versions each, incl. inserts at the same position, moves between arrays, removals) and exchange: array and object conflicts pending",
+                                   "operations": "meld without refresh; idle refresh + reload; stage_full_snapshot (+ commit, reopen); user edit + commit with automatic array resolution (+ reopen); idle commit",
+                                   "combos [versions, symbolic ids of inserted elements]": [list(c) for c in combos]},
+                assumptions=S2_ASSUME, note="melda.rs commit / resolve_as / read_object_at_revision / get_merged_order_at_revision / stage_full_snapshot / meld / refresh / reload from MIR")
+
+
 def c13(tier):
     combos = [(4, 0)] if tier == "quick" else [(4, 0), (4, 1), (8, 0)]
     jobs = [Job("h_hist::commit_graph", c, dict(S2), budget_s=3000, validate=30) for c in combos]
@@ -175,4 +200,4 @@ def c10(tier):
                 note="melda.rs reload / fetch_raw_delta / load_raw_delta / check_delta, datastorage.rs try_load_pack / read_raw_value from MIR")
 
 
-PROPS = {"C04": c04, "C13": c13, "C14": c14, "C07": c07, "C10": c10, "C08": c08, "C03": c03, "C06": c06, "C16": c16, "C19": c19, "C05": c05, "C15": c15}
+PROPS = {"C02": c02, "C04": c04, "C12": c12, "C13": c13, "C14": c14, "C07": c07, "C10": c10, "C08": c08, "C03": c03, "C06": c06, "C16": c16, "C19": c19, "C05": c05, "C15": c15}
